@@ -87,6 +87,7 @@ struct Sh {
     reraised: AtomicUsize,      // panics of arms that reached the owner (caught around poll, or left the scope)
     owner_unwound: AtomicBool,  // the owner panicked itself / was cancelled
     cancelled: AtomicBool,
+    inpoll: AtomicBool,         // the owner is inside poll or leaving the scope: the only times a bottom half may start
 }
 
 struct Rng(u64);
@@ -187,6 +188,9 @@ fn bottom_half(sh: &Arc<Sh>, i: usize, round: usize, r: &mut Rng, g: &mut ArmGua
     if b != round {
         c.fail(format!("arm {i}: bottom half {round} runs but {b} bottom halves ran before (twice / out of order)"));
     }
+    if !sh.inpoll.load(SeqCst) {
+        c.fail(format!("arm {i}: bottom half {round} runs although no poll and no drain is in progress: it was not started by the consumption of its event"));
+    }
     sh.botblk[i].store(false, SeqCst);
     sh.bots[i].fetch_add(1, SeqCst);
     if r.pct(sh.cfg.bblock) {
@@ -252,6 +256,14 @@ fn cq_owner(sh: &Arc<Sh>, seed: u64) {
     let guard = FrameGuard(sh.clone(), "cqueue::scope");
     let res = catch_unwind(AssertUnwindSafe(|| {
         may::cqueue::scope(|cq| {
+            // when the closure is left (also by unwinding) the final drain begins
+            struct ClosureEnd(Arc<Sh>);
+            impl Drop for ClosureEnd {
+                fn drop(&mut self) {
+                    self.0.inpoll.store(true, SeqCst);
+                }
+            }
+            let _ce = ClosureEnd(sh.clone());
             let mut sels = vec![];
             for i in 0..cfg.arms {
                 let sh2 = sh.clone();
@@ -309,7 +321,9 @@ fn cq_owner(sh: &Arc<Sh>, seed: u64) {
                 let t0 = c.now();
                 c.log("poll.call", to.map_or(0, |d| d + 1), t0, None);
                 let catch = r.pct(cfg.catch);
+                sh.inpoll.store(true, SeqCst);
                 let pr = catch_unwind(AssertUnwindSafe(|| cq.poll(to.map(Duration::from_nanos))));
+                sh.inpoll.store(false, SeqCst);
                 let now = c.now();
                 match pr {
                     Ok(Ok(ev)) => {
@@ -501,6 +515,7 @@ fn select_owner(sh: &Arc<Sh>, seed: u64) {
     let c = mayv::ctx();
     let guard = FrameGuard(sh.clone(), "select!");
     sh.added.store(sh.cfg.arms, SeqCst);
+    sh.inpoll.store(true, SeqCst);
     c.log("sel.call", sh.cfg.arms as u64, c.now(), None);
     let res = catch_unwind(AssertUnwindSafe(|| match sh.cfg.arms {
         1 => may::select!(mut g = sel_top(sh, 0, seed) => sel_bot(sh, 0, seed, &mut g)),
@@ -560,8 +575,11 @@ fn main() {
         signal(7, on_segv);
     }
     let mut cfg = Config::from_env();
-    if envs("MAYV_SCHED", "narrow") == "narrow" {
-        cfg.sched_files = vec!["src/cqueue.rs", "src/join.rs", "src/cancel.rs", "src/park.rs", "src/sync/blocking.rs", "src/sync/atomic_option.rs"];
+    match envs("MAYV_SCHED", "narrow").as_str() {
+        "narrow" => cfg.sched_files = vec!["src/cqueue.rs", "src/join.rs", "src/cancel.rs", "src/park.rs", "src/sync/blocking.rs", "src/sync/atomic_option.rs"],
+        // schedule points (and preemption stalls) only at the accesses of cqueue.rs itself: the windows between them get all the attention
+        "cq" => cfg.sched_files = vec!["src/cqueue.rs"],
+        _ => {}
     }
     let sc = Cfg {
         arms: envn("MAYV_ARMS", 3).clamp(1, 4) as usize,
@@ -605,6 +623,7 @@ fn main() {
             reraised: AtomicUsize::new(0),
             owner_unwound: AtomicBool::new(false),
             cancelled: AtomicBool::new(false),
+            inpoll: AtomicBool::new(false),
         });
         let seed = ctx.rand();
         let done = Arc::new(AtomicBool::new(false));
